@@ -183,7 +183,7 @@ def random_group(rng, gi, cfg):
         if k == "lact":
             return g.action(g.seq([g.label(expr(d - 1, refs, handlers, minlab)), expr(d - 1, refs, handlers, minlab)]), err=rng.random() < cfg.errs)
         if k == "state":
-            ops = ["set", "inc", "del"] + (["app", "app"] if cfg.cloner else [])
+            ops = ["set", "inc", "del", "nil"] + (["app", "app"] if cfg.cloner else [])
             op = rng.choice(ops)
             return g.state(op, key=("cl" if op == "app" else rng.choice(["x", "y"])), arg=rng.randint(1, 3),
                            err=rng.random() < cfg.errs, g=(1 if cfg.gstore and rng.random() < 0.3 else 0))
